@@ -61,6 +61,17 @@ class Exec:
             else: self.unreachable += 1
         return out
 
+    def emit(self, st, record):
+        """append a traced call to the activation trace.  If the contract under verification gives the expected
+        trace as a function of the position (order automaton, DESIGN 2.8), the record is checked right here: the
+        obligation is quantifier-free, and by induction over the emits the whole trace equals the expected one."""
+        ts = self.spec.trace_spec
+        if ts is not None:
+            fn, length = ts
+            self.oblige('trace:each_call_is_the_expected_one_at_its_position', st, record == fn(st.tn), kind='trace')
+            self.oblige('trace:no_call_beyond_the_expected_ones', st, st.tn < length, kind='trace')
+        st.emit(record)
+
     def raise_(self, st, cls, where=None, val=None):
         if val is None: val = Val.Obj(fresh('exc', IntSort()))
         return Raise(PExc(cls, val=val, where=where))
